@@ -17,8 +17,10 @@ FIELDS = ["id", "name"]
 GOOD = [["1", "ab"], ["2", "c"], ["3", "xyz"], ["42", "ab"], ["0", "c"], ["7", "q"], ["8", "zz"], ["9", "ab"], ["10", "b"]]
 
 
-def build_table(header, data_rows, bad_at, bad_kind):
-    table = [["hd", "hdr"][:2] for _ in range(header)] + [list(GOOD[i % len(GOOD)]) for i in range(data_rows)]
+def build_table(header, data_rows, bad_at, bad_kind, multiline_header=False):
+    # a header record may span several physical lines (quoted line breaks) and hold quotes: it is still one row
+    header_row = ["h\nd", 'h"d\r\nr'] if multiline_header else ["hd", "hdr"]
+    table = [list(header_row) for _ in range(header)] + [list(GOOD[i % len(GOOD)]) for i in range(data_rows)]
     if bad_at is not None:
         if bad_kind == "cell":
             table[bad_at - 1] = ["x", "ab"]
@@ -50,7 +52,7 @@ def judge(case, part):
     config = {"preset": case["preset"], "header": case["header"], "fields": FIELDS, "checks": []}
     decls = readermachine.decls_for(config)
     header, limit, bad_at, bad_kind = case["header"], case["limit"], case["bad_at"], case["bad_kind"]
-    table = build_table(header, case["rows"], bad_at, bad_kind)
+    table = build_table(header, case["rows"], bad_at, bad_kind, case.get("multiline_header", False))
     rejects = bad_at is not None and bad_at > header and (limit is None or bad_at <= limit)
     tag = "%s|%%s" % case["preset"]
     part.evaluations += 1
@@ -176,6 +178,8 @@ def enumerate_cases(preset, header):
                     if preset == "fixed" and bad_at <= header and kind == "cell2":
                         pass
                     cases.append({"preset": preset, "header": header, "rows": rows, "limit": limit, "bad_at": bad_at, "bad_kind": kind})
+    if preset == "delimited" and header:
+        cases += [dict(case, multiline_header=True) for case in cases if case["rows"] <= 4 and case["bad_kind"] in (None, "cell", "short")]
     return cases
 
 
@@ -193,7 +197,7 @@ def work(item):
 def run(ctx):
     items = [(preset, header, chunk, 4) for preset in ("delimited", "fixed") for header in range(0, 4) for chunk in range(4)]
     total = sum(len(enumerate_cases(p, h)) for p in ("delimited", "fixed") for h in range(4))
-    ctx.bound = {"cases": total, "header": "0..3", "data rows": "0..6", "limit": "none, 0..rows+header+1", "bad row": "none or one at every position 1..rows+header (also inside the header); kinds: bad cell (2 kinds), one item short, one item long (delimited)",
+    ctx.bound = {"cases": total, "header": "0..3", "data rows": "0..6", "limit": "none, 0..rows+header+1", "header rows": "plain; delimited also with quoted line breaks and quotes inside header cells", "bad row": "none or one at every position 1..rows+header (also inside the header); kinds: bad cell (2 kinds), one item short, one item long (delimited)",
                  "apis": ["cutplace.rows x 3 modes", "cutplace.validate", "applications.main --until (and --until -1 / absent for no limit)"]}
     ctx.rule = "full product, no sampling; non-trivial = case with a bad row; oracle: rejection reported iff position > header and (no limit or position <= limit); states = (format, header) configurations"
     ctx.assumptions = ["in fixed format a bad row is a bad cell only (a record of the wrong width is a container fault, C06/C13)"]
